@@ -6,10 +6,10 @@
 From Coq Require Import List Bool Arith QArith ZArith.
 From SF Require Import Base.GeomAST Base.QKernel Base.Planar Model.Empty Proofs.Empty_proofs
   Proofs.Empty_obs_proofs Proofs.Empty_ix_proofs Proofs.Empty_centroid_proofs Proofs.Empty_boundary_proofs Proofs.Empty_codec_proofs
-  Proofs.Empty_refresh_proofs Proofs.Empty_transform_proofs Proofs.Empty_ee_proofs Proofs.Empty_pos_proofs.
+  Proofs.Empty_refresh_proofs Proofs.Empty_transform_proofs Proofs.Empty_ee_proofs Proofs.Empty_pos_proofs Proofs.Empty_twkb_proofs.
 From SF Require Model.Envelope Model.Measure Model.Hull Model.Relate Model.SetOpSpec Model.Intersects Model.Distance
   Model.Boundary Proofs.Boundary_proofs Proofs.Relate_proofs Proofs.Intersects_proofs
-  Base.Outcome Model.WKB Model.WKT Model.GeoJSON
+  Base.Outcome Model.WKB Model.WKT Model.GeoJSON Base.Varint Model.TWKB Model.EmptyObs
   Proofs.Intersects_areal Proofs.Planar_slab_base Model.TrReverse Model.TrForce Model.ExactEq Model.PointOnSurface Model.Calipers.
 Import ListNotations.
 Local Close Scope Q_scope.
@@ -458,6 +458,33 @@ Theorem insert_geojson_roundtrip : forall (g : geomT N) p,
 Proof. exact ins_gj_roundtrip. Qed.
 Print Assumptions insert_geojson_roundtrip.
 
+(* TWKB (Model/TWKB.v, C07), the bounding-box header: the box the encoder must announce (per wire
+   dimension X Y [Z] [M] the minimum and maximum over all vertices: EmptyObs.twkb_bbox_z, which is
+   TWKB.expected_info's box) cannot see inserted empty members ... *)
+Theorem insert_twkb_bbox : forall (g : geomT Z) p,
+  EmptyObs.twkb_bbox_z (insert_empties g p) = EmptyObs.twkb_bbox_z g /\
+  EmptyObs.twkb_bbox_z (strip_empties g) = EmptyObs.twkb_bbox_z g.
+Proof. intros g p. split; [apply twkb_bbox_z_insert | apply twkb_bbox_z_strip]. Qed.
+Print Assumptions insert_twkb_bbox.
+
+(* ... and, with C07's header theorem, UnmarshalTWKBEnvelope answers the same box (the one above, with
+   the same coordinates type) on the document written for the geometry with inserted members and on
+   the one written for the geometry itself - for ANY two admissible option sets with the bounding-box
+   header on (they may differ in precisions, size header, ring closing, and must differ in the ID
+   list when one is given: one ID per member, empty members included).  Hypotheses: the domain of
+   C07's round trip for both (it excludes an empty Point inside a non-empty MultiPoint, which the
+   encoder refuses: F5) and documents shorter than 2^63 bytes. *)
+Theorem insert_twkb_bbox_header : forall (o o' : TWKB.topts) (g : geomT Z) p (b b' : list N),
+  TWKB.wf_twkb o (insert_empties g p) = true -> TWKB.wf_twkb o' g = true ->
+  TWKB.tmarshal o (insert_empties g p) = Outcome.Ok b -> TWKB.tmarshal o' g = Outcome.Ok b' ->
+  (Z.of_nat (length b) < Varint.two63)%Z -> (Z.of_nat (length b') < Varint.two63)%Z ->
+  TWKB.o_bbox o = true -> TWKB.o_bbox o' = true -> is_empty g = false ->
+  exists mm, EmptyObs.twkb_bbox_z g = Some mm /\
+             TWKB.tread_env b = Outcome.Ok (Some (geom_ct g, mm)) /\
+             TWKB.tread_env b' = Outcome.Ok (Some (geom_ct g, mm)).
+Proof. exact insert_twkb_bbox_header_lemma. Qed.
+Print Assumptions insert_twkb_bbox_header.
+
 (* ---------------------------------------------------------------- the zero Geometry *)
 (* every method of geom.Geometry reaches the payload through MustAsGeometryCollection, which maps
    the nil payload to GeometryCollection{}: every observable of the zero value is that of the
@@ -517,3 +544,29 @@ Example ex_pointset_hyps :
   Intersects_polypoly.operand_okb ex_gq = true /\ SetOpSpec.rings_closed_b ex_gq = true /\
   Boundary.geom_wf ex_gq = true /\ is_empty (insert_empties ex_gq ex_p) = false.
 Proof. vm_compute. auto. Qed.
+
+(* the hypotheses of insert_twkb_bbox_header are satisfiable: MULTILINESTRING ZM ((5 5 3 2,6 7 4 1),(8 6 5 2,9 9 3 3))
+   with an empty line string in front, between and behind, an ID list of five resp. two entries; the
+   box excludes 0 in every dimension *)
+Definition ex_zv (x y z m : Z) : vtx Z := Build_vtx x y z m.
+Definition ex_gz : geomT Z :=
+  GMLine XYZM [MkLine XYZM [ex_zv 5 5 3 2; ex_zv 6 7 4 1]; MkLine XYZM [ex_zv 8 6 5 2; ex_zv 9 9 3 3]].
+Definition ex_pz : eplan := EP [(0, ELn); (2, ELn); (4, ELn)] [].
+Definition ex_o (ids : list Z) : TWKB.topts :=
+  {| TWKB.o_pxy := 0; TWKB.o_pz := Some 1%Z; TWKB.o_pm := None; TWKB.o_size := true; TWKB.o_bbox := true;
+     TWKB.o_close := false; TWKB.o_ids := ids |}.
+Example ex_twkb_bbox :
+  insert_empties ex_gz ex_pz =
+    GMLine XYZM [MkLine XYZM []; MkLine XYZM [ex_zv 5 5 3 2; ex_zv 6 7 4 1]; MkLine XYZM [];
+                 MkLine XYZM [ex_zv 8 6 5 2; ex_zv 9 9 3 3]; MkLine XYZM []] /\
+  TWKB.wf_twkb (ex_o [1; 2; 3; 4; 5]%Z) (insert_empties ex_gz ex_pz) = true /\
+  TWKB.wf_twkb (ex_o [7; 8]%Z) ex_gz = true /\
+  EmptyObs.twkb_bbox_z ex_gz = Some [(5, 9); (5, 9); (3, 5); (1, 3)]%Z /\
+  (exists b, TWKB.tmarshal (ex_o [1; 2; 3; 4; 5]%Z) (insert_empties ex_gz ex_pz) = Outcome.Ok b /\
+             TWKB.tread_env b = Outcome.Ok (Some (XYZM, [(5, 9); (5, 9); (3, 5); (1, 3)]%Z))).
+Proof.
+  split; [vm_compute; reflexivity|]. split; [vm_compute; reflexivity|]. split; [vm_compute; reflexivity|].
+  split; [vm_compute; reflexivity|].
+  exists (match TWKB.tmarshal (ex_o [1; 2; 3; 4; 5]%Z) (insert_empties ex_gz ex_pz) with Outcome.Ok b => b | _ => [] end).
+  split; vm_compute; reflexivity.
+Qed.
